@@ -4,11 +4,12 @@ use crate::support::*;
 use educe::Educe;
 use core::cmp::Ordering;
 #[derive(Educe)]
-#[educe(PartialOrd, Eq, PartialEq)]
-pub struct T(#[educe(PartialOrd(method = "m_pcmp"))] A<0>, A<1>);
+#[repr(isize)]
+#[educe(PartialEq, Ord, Eq, PartialOrd)]
+pub enum T { Unit {  }, C(#[educe(PartialOrd(rank("8")))] A<0>, #[educe(PartialOrd = false)] A<1>, #[educe(PartialOrd(rank("-3"), method = "m_cmp"))] A<0>, A<0>), None { arg: A<0>, #[educe(PartialOrd = false)] b: A<0> }, Zed {  } }
 
-pub fn values() -> Vec<T> { vec![T(A(0), A(0)), T(A(0), A(1)), T(A(0), A(7)), T(A(1), A(0)), T(A(1), A(1)), T(A(1), A(7)), T(A(7), A(0)), T(A(7), A(1)), T(A(7), A(7))] }
-pub fn show(x: &T) -> String { #[allow(unused_variables)] match x { T(p0, p1) => format!("T({},{})", sv(p0), sv(p1)) } }
-pub fn o_disc(x: &T) -> i128 { match x { T(_, _) => 0 } }
-pub fn o_pcmp(a: &T, b: &T) -> Option<Ordering> { match (a, b) { (T(a0, a1), T(b0, b1)) => { match m_pcmp(a0, b0) { Some(Ordering::Equal) => (), x => return x } match ::core::cmp::PartialOrd::partial_cmp(a1, b1) { Some(Ordering::Equal) => (), x => return x } Some(Ordering::Equal) } } }
-pub fn run(out: &mut Out) { let vs = values(); for (i, a) in vs.iter().enumerate() { for (j, b) in vs.iter().enumerate() { let e = o_pcmp(a, b); let g = ::core::cmp::PartialOrd::partial_cmp(a, b); out.check(g == e, "ord_29", "partial_cmp", || format!("partial_cmp({}, {}) = {:?} expected {:?}", show(a), show(b), g, e)); } } }
+pub fn values() -> Vec<T> { vec![T::Unit {  }, T::C(A(0), A(1), A(0), A(1)), T::C(A(7), A(7), A(0), A(1)), T::C(A(0), A(7), A(7), A(1)), T::C(A(0), A(7), A(0), A(7)), T::C(A(7), A(7), A(7), A(7)), T::C(A(1), A(0), A(7), A(7)), T::C(A(1), A(1), A(7), A(1)), T::C(A(0), A(7), A(7), A(0)), T::C(A(1), A(7), A(7), A(7)), T::None { arg: A(0), b: A(0) }, T::None { arg: A(0), b: A(1) }, T::None { arg: A(0), b: A(7) }, T::None { arg: A(1), b: A(0) }, T::None { arg: A(1), b: A(1) }, T::None { arg: A(1), b: A(7) }, T::None { arg: A(7), b: A(0) }, T::None { arg: A(7), b: A(1) }, T::None { arg: A(7), b: A(7) }, T::Zed {  }] }
+pub fn show(x: &T) -> String { #[allow(unused_variables)] match x { T::Unit {  } => format!("Unit()"), T::C(p0, p1, p2, p3) => format!("C({},{},{},{})", sv(p0), sv(p1), sv(p2), sv(p3)), T::None { arg: p0, b: p1 } => format!("None({},{})", sv(p0), sv(p1)), T::Zed {  } => format!("Zed()") } }
+pub fn o_disc(x: &T) -> i128 { match x { T::Unit {  } => 0, T::C(_, _, _, _) => 1, T::None { arg: _, b: _ } => 2, T::Zed {  } => 3 } }
+pub fn o_cmp(a: &T, b: &T) -> Ordering { match (a, b) { (T::Unit {  }, T::Unit {  }) => {  Ordering::Equal }, (T::C(a0, a1, a2, a3), T::C(b0, b1, b2, b3)) => { let c = ::core::cmp::Ord::cmp(a3, b3); if c != Ordering::Equal { return c; } let c = m_cmp(a2, b2); if c != Ordering::Equal { return c; } let c = ::core::cmp::Ord::cmp(a0, b0); if c != Ordering::Equal { return c; } Ordering::Equal }, (T::None { arg: a0, b: a1 }, T::None { arg: b0, b: b1 }) => { let c = ::core::cmp::Ord::cmp(a0, b0); if c != Ordering::Equal { return c; } Ordering::Equal }, (T::Zed {  }, T::Zed {  }) => {  Ordering::Equal }, _ => o_disc(a).cmp(&o_disc(b)) } }
+pub fn run(out: &mut Out) { let vs = values(); for (i, a) in vs.iter().enumerate() { for (j, b) in vs.iter().enumerate() { let e = o_cmp(a, b); let g = ::core::cmp::Ord::cmp(a, b); out.check(g == e, "ord_29", "cmp", || format!("cmp({}, {}) = {:?} expected {:?}", show(a), show(b), g, e)); let g2 = ::core::cmp::PartialOrd::partial_cmp(a, b); out.check(g2 == Some(e), "ord_29", "partial_is_some_cmp", || format!("partial_cmp({}, {}) = {:?} expected Some({:?})", show(a), show(b), g2, e)); } } }
